@@ -75,6 +75,7 @@ type vfWorld struct {
 	targets map[string]*vfTarget
 	routers []*Router
 	fronts  []*vfFront
+	raws    map[string]*vfRawTarget
 	holds   map[string]chan struct{}
 	maxIvl  time.Duration
 	maxWait time.Duration
